@@ -354,6 +354,9 @@ pub fn run(ws: &[&str]) -> String {
                 .header(http::header::CONNECTION, "close")
                 .header("x-request-id", "0123456789abcdef")
                 .header("x-content-type-options", "nosniff");
+            for (n, v) in extra_noise_headers() {
+                b = b.header(n.as_str(), v.as_str());
+            }
         }
         Ok(b.body(body.clone()).unwrap())
     };
